@@ -71,12 +71,29 @@ Definition dobs := (list (Z * Z) * list cobs)%type.     (* watchValue.values sor
 Definition robs := (list (list Z) * list Z)%type.       (* lists given to UpdateState, Values() sorted *)
 Definition kobs := (list (list Z) * list Z)%type.       (* lists given to update (sorted), h.endpoints sorted *)
 
+(* cluster: the real Registry / cluster machinery on a fake etcd.  One thread per watcher
+   (watched key x exactMatch, from its creation to its removal): [h] = etcd's mutations inside
+   the watched range, in order; the ops are what the fake etcd was asked / answered for this
+   watcher (as logged by the fake), the listeners that came and went, and the quiescent points
+   ([n] = number of mutations of [h] etcd has made so far; [lag]: etcd was told to withhold
+   deliveries at that moment). *)
+Inductive wop :=
+| WD (d : gdl)
+| WRespCalls (calls : list lev)      (* the listener calls the spy saw for the preceding GResp *)
+| WJoinNotes (jn : Z)                (* how the preceding GJoin's listener func was attached:
+                                        0 = before Monitor (sees the replay), 1 = after it (sees
+                                        nothing), 2 = after it, then called once (discovBuilder) *)
+| WLeave (i : nat)
+| WObs (n : nat) (lag : bool) (rv : list (Z * Z)) (cs : list cobs).
+Definition wthread := (list bev * list wop)%type.
+
 Inductive case :=
 | CContainer (x : bool) (levs : list lev) (obs : list cobs)
 | CDiscov (xs : list bool) (evs : list ev) (obs : list dobs)
 | CResolver (n : Z) (pre evs : list ev) (build : robs) (obs : list robs)
 | CSubset (set : list Z) (sub : Z) (sh out : list Z)
-| CKube (evs : list kev) (obs : list kobs).
+| CKube (evs : list kev) (obs : list kobs)
+| CCluster (ths : list wthread).
 
 (* ------------------------------------------------------------ agrees: model = implementation *)
 Definition cobs_eqb (a b : cobs) : bool := zs_eqb (fst a) (fst b) && zss_eqb (snd a) (snd b).
@@ -142,6 +159,67 @@ Fixpoint agrees_kube (s : kstate) (evs : list kev) (obs : list kobs) : bool :=
   | _, _ => false
   end.
 
+(* ---- cluster *)
+Fixpoint remove_nth {A} (i : nat) (l : list A) : list A :=
+  match l, i with
+  | [], _ => []
+  | _ :: l', O => l'
+  | x :: l', S i' => x :: remove_nth i' l'
+  end.
+
+Fixpoint dlvs_of (ops : list wop) : list gdl :=
+  match ops with
+  | [] => []
+  | WD d :: l => d :: dlvs_of l
+  | _ :: l => dlvs_of l
+  end.
+
+Definition lev_eqb (a b : lev) : bool :=
+  match a, b with
+  | LAdd k v, LAdd k' v' => (k =? k') && (v =? v')
+  | LDel k, LDel k' => k =? k'
+  | _, _ => false
+  end.
+
+Definition app_notes (acc new : list (list (list Z))) : list (list (list Z)) :=
+  map (fun p => fst p ++ snd p) (combine acc new).
+
+(* [acc]: per container, the views its listener func has seen since the last quiescent point;
+   [lastev]: the previous delivery (for WRespCalls / WJoinNotes) *)
+Fixpoint agrees_thread (s : sys) (acc : list (list (list Z))) (lastev : option ev) (ops : list wop) : bool :=
+  match ops with
+  | [] => true
+  | WD d :: l =>
+    let e := ev_of_g d in
+    let s' := step s e in
+    let acc' := match d with
+                | GJoin _ _ => acc ++ [last (ev_notes s e) []]
+                | _ => app_notes acc (ev_notes s e)
+                end in
+    wf_ev_b s e && agrees_thread s' acc' (Some e) l
+  | WRespCalls calls :: l =>
+    match lastev with
+    | Some e => list_eqb lev_eqb (emitted e) calls
+    | None => false
+    end && agrees_thread s acc lastev l
+  | WJoinNotes jn :: l =>
+    let acc' := match rev acc with
+                | [] => acc
+                | _ :: racc =>
+                  rev racc ++ [if jn =? 0 then last acc []
+                               else if jn =? 1 then []
+                               else [sort_z (c_values (last (conts s) (new_container false)))]]
+                end in
+    agrees_thread s acc' lastev l
+  | WLeave i :: l =>
+    agrees_thread (mkSys (rvals s) (remove_nth i (conts s))) (remove_nth i acc) lastev l
+  | WObs _ _ rv cs :: l =>
+    pairs_eqb (sort_pairs (rvals s)) rv &&
+    Nat.eqb (length (conts s)) (length acc) &&
+    list_eqb cobs_eqb (combine (map (fun c => sort_z (c_values c)) (conts s)) acc) cs &&
+    agrees_thread s (map (fun _ => []) acc) lastev l
+  end.
+
 Definition agrees (c : case) : bool :=
   match c with
   | CContainer x levs obs => agrees_container (new_container x) levs obs
@@ -157,6 +235,12 @@ Definition agrees (c : case) : bool :=
     agrees_resolver n s1 evs obs
   | CSubset set sub sh out => perm_b sh set && zs_eqb (subset sh sub) out
   | CKube evs obs => agrees_kube kinit evs obs
+  | CCluster ths =>
+    (* what the fake etcd delivered is consistent in the sense of ProofsG.consistent (the
+       hypothesis of view_equals_etcd_after_any_consistent_delivery held in this run), and
+       the model reproduces every observation *)
+    forallb (fun th => consistent_b (fst th) 0 0 (dlvs_of (snd th)) &&
+                       agrees_thread (init []) [] None (snd th)) ths
   end.
 
 (* ------------------------------------------------------------ prop_ok: the property on the observations *)
@@ -270,6 +354,41 @@ Fixpoint prop_kube (t lastpub : list Z) (evs : list kev) (obs : list kobs) : boo
   | _, _ => false
   end.
 
+(* cluster: [t] = the registrations the deliveries imply (PUT sets, DELETE removes, a load
+   replaces); [tr] = per listener (exclusive?, key -> value implied by the calls it must have
+   received, Values() at the last quiescent point).  At a quiescent point: the registry's copy
+   is [t]; unless etcd withholds deliveries, [t] is etcd's store NOW (the cluster caught up,
+   whatever closed streams, compactions, failed Gets, reloads happened); every listener shows
+   the registered values (exclusive: those of its calls, never a stale one), was notified if
+   its view changed and saw the final view last. *)
+Fixpoint prop_thread (h : list bev) (t : amap Z) (tr : list ctrack) (prev : list ctrack) (ops : list wop) : bool :=
+  match ops with
+  | [] => true
+  | WD d :: l =>
+    let e := ev_of_g d in
+    match d with
+    | GJoin x order =>
+      prop_thread h t (tr ++ [track_step (ladds order) (x, [], [])]) (prev ++ [(x, [], [])]) l
+    | GResp _ evs => prop_thread h (truth_step t e) (map (track_step (map blev evs)) tr) prev l
+    | _ => prop_thread h (truth_step t e) (map (track_step (emitted e)) tr) prev l
+    end
+  | WRespCalls _ :: l => prop_thread h t tr prev l
+  | WJoinNotes jn :: l =>
+    (* a listener func attached after Monitor has not seen the replay: nothing to demand of
+       its notifications for the join itself *)
+    let prev' := if jn =? 1 then match rev prev, rev tr with
+                                | _ :: rp, x :: _ => rev rp ++ [x]
+                                | _, _ => prev
+                                end else prev in
+    prop_thread h t tr prev' l
+  | WLeave i :: l => prop_thread h t (remove_nth i tr) (remove_nth i prev) l
+  | WObs n lag rv cs :: l =>
+    pairs_eqb (sort_pairs t) rv &&
+    (lag || amap_eqb t (etcd_state h n)) &&
+    conts_ok prev tr (vals_of t) cs &&
+    prop_thread h t tr tr l
+  end.
+
 Definition prop_ok (c : case) : bool :=
   match c with
   | CContainer x levs obs =>
@@ -284,6 +403,7 @@ Definition prop_ok (c : case) : bool :=
     if Z.of_nat (length set) <=? sub then perm_b out set
     else (Z.of_nat (length out) =? sub) && match msub set out with Some _ => true | None => false end
   | CKube evs obs => prop_kube [] [] evs obs
+  | CCluster ths => forallb (fun th => prop_thread (fst th) [] [] [] (snd th)) ths
   end.
 
 (* ------------------------------------------------------------ diagnostics *)
@@ -292,7 +412,8 @@ Inductive mobs :=
 | MDiscov (l : list dobs)
 | MViews (l : list (list Z))
 | MSubset (l : list Z)
-| MKube (l : list kobs).
+| MKube (l : list kobs)
+| MCluster (l : list (list dobs)).
 
 Fixpoint mo_container (c : container) (levs : list lev) : list cobs :=
   match levs with
@@ -318,6 +439,26 @@ Fixpoint mo_views (s : sys) (evs : list ev) : list (list Z) :=
   | e :: l => let s' := step s e in sort_z (c_values (the_cont s')) :: mo_views s' l
   end.
 
+Fixpoint mo_thread (s : sys) (acc : list (list (list Z))) (ops : list wop) : list dobs :=
+  match ops with
+  | [] => []
+  | WD d :: l =>
+    let e := ev_of_g d in
+    mo_thread (step s e) (match d with GJoin _ _ => acc ++ [last (ev_notes s e) []]
+                                   | _ => app_notes acc (ev_notes s e) end) l
+  | WRespCalls _ :: l => mo_thread s acc l
+  | WJoinNotes jn :: l =>
+    mo_thread s (match rev acc with
+                 | [] => acc
+                 | _ :: racc => rev racc ++ [if jn =? 0 then last acc [] else if jn =? 1 then []
+                                             else [sort_z (c_values (last (conts s) (new_container false)))]]
+                 end) l
+  | WLeave i :: l => mo_thread (mkSys (rvals s) (remove_nth i (conts s))) (remove_nth i acc) l
+  | WObs _ _ _ _ :: l =>
+    (sort_pairs (rvals s), combine (map (fun c => sort_z (c_values c)) (conts s)) acc)
+    :: mo_thread s (map (fun _ => []) acc) l
+  end.
+
 Definition model_obs (c : case) : mobs :=
   match c with
   | CContainer x levs _ => MCont (mo_container (new_container x) levs)
@@ -327,4 +468,5 @@ Definition model_obs (c : case) : mobs :=
     MViews (mo_views (step s0 (EJoin false (rvals s0))) evs)
   | CSubset _ sub sh _ => MSubset (subset sh sub)
   | CKube evs _ => MKube (mo_kube kinit evs)
+  | CCluster ths => MCluster (map (fun th => mo_thread (init []) [] (snd th)) ths)
   end.
